@@ -404,3 +404,31 @@ def ref_encode(kind, v):
     except (RC.CodecError, UnicodeDecodeError, ValueError):
         return None
     return None
+
+
+REF_API = {"produce0": (0, 0), "produce2": (0, 2), "fetch0": (1, 0), "fetch2": (1, 2), "offset": (2, 0), "metadata": (3, 0),
+           "consumermetadata": (10, 0), "offset_commit": (8, 1), "offset_fetch": (9, 1), "join_group": (11, 0), "sync_group": (14, 0),
+           "heartbeat": (12, 0), "leave_group": (13, 0), "api_versions": (18, 0)}
+
+
+def ref_parses(kind, data):
+    """refcodec parses `data` strictly as a response / message set of `kind` and re-encodes it to the same bytes.
+    -> True / False / None (no refcodec parser for this kind)."""
+    from harness.sim import refcodec as RC
+
+    try:
+        if kind == "msgset":
+            return RC.encode_message_set(RC.decode_message_set(data)) == data
+        if kind == "join_group_protocol_metadata":
+            d = RC.decode_subscription(data)
+            return RC.encode_subscription(d["version"], d["topics"], d["user_data"]) == data
+        if kind == "sync_group_member_assignment":
+            d = RC.decode_assignment(data)
+            return RC.encode_assignment(d["version"], d["partitions"], d["user_data"]) == data
+        if kind in REF_API:
+            k, ver = REF_API[kind]
+            corr, body = RC.parse_response(k, ver, data)
+            return RC.encode_response(k, ver, corr, body) == data
+    except (RC.CodecError, UnicodeDecodeError, ValueError):
+        return False
+    return None
